@@ -1,6 +1,6 @@
 """check configuration for C05 (loaded by lib/zvprops.py)"""
 
-PROP = {'gen_tables': ['FrontEnds', 'TransCores', 'TransCEAdd', 'TransLogger'],
+PROP = {'gen_tables': ['FrontEnds', 'TransCores', 'TransCEAdd', 'TransLogger', 'TransCtor', 'TransLevel'],
  'rule': 'ops: one core tree (io/observer leaves with arbitrary enablers incl. static Level and shared AtomicLevels; nop, tee, IncreaseLevel, '
          'hooks, sampler, lazy-with, With anywhere) + a history of calls (level queries over all 256 levels, log calls through any front end, '
          'AtomicLevel changes). exhaustive: all 2^7 enablers on 6 shapes of depth ≤ 2 at every valid level, every front end on a fixed tree at '
@@ -11,7 +11,7 @@ PROP = {'gen_tables': ['FrontEnds', 'TransCores', 'TransCEAdd', 'TransLogger'],
                  'observer leaves are read after each call: the order of observer writes relative to other events is not compared (io leaves '
                  'carry the ordering)',
                  'Core.With(a).With(b) is modelled as one push-down of a ++ b (same per-leaf marshal order, same emissions)'],
- 'technique': 'Lean 4: structural induction over the core algebra (tee/increase-level/hooks/sampler/lazy/with over arbitrary enablers): delivered leaves = open paths; front-end guard table regenerated from source; tie: correspondence on random core trees × levels × front ends + translated source (the Check/Enabled methods of ioCore, levelFilterCore, hooked, multiCore, AddCore, the level guards of Logger.check and SugaredLogger.log proved equal to the model); Logger.Sync reaches every io leaf',
+ 'technique': 'Lean 4: structural induction over the core algebra (tee/increase-level/hooks/sampler/lazy/with over arbitrary enablers): delivered leaves = open paths; front-end guard table regenerated from source; tie: correspondence on random core trees × levels × front ends + translated source (the Check/Enabled methods of ioCore, levelFilterCore, hooked, multiCore, AddCore, the level guards of Logger.check and SugaredLogger.log proved equal to the model); Logger.Sync reaches every io leaf; NewIncreaseLevelCore, NewTee, multiCore.Level, levelFilterCore.Level, LevelOf proved to be incrValid, mkTee, levelOfAll, leastValid',
  'level_text': 'leaf_delivery_iff, hook_fires_iff, disabled_no_effects and levelOf_min are proved for every core tree of the model; the front-end obligations are decided over the regenerated FrontEnds table.',
  'level_note': 'Sampler decisions are an oracle bit here (counted under C11); Enabled-completeness is partial (known findings F6/F6b).',
 }
